@@ -3,6 +3,8 @@
   definition on the case's parameters and prints a canonical result.
 -/
 import Desync.Model.IndexCodec
+import Desync.Model.Chunker
+import Desync.Model.Goodbye
 
 namespace Driver
 open Desync
@@ -61,6 +63,42 @@ def cmdIdxEncode (a : Args) : String :=
   | none => "bad-op"
   | some cs => toHex (encodeIndex ⟨a.u64 "flags", a.u64 "min", a.u64 "avg", a.u64 "max", cs⟩)
 
+def pairsStr (l : List (Nat × Nat)) : String :=
+  String.intercalate "," (l.map fun (a, b) => s!"{a}:{b}")
+
+def natList (s : String) : List Nat :=
+  if s.isEmpty then [] else (s.splitOn ",").filterMap String.toNat?
+
+def paramsOf (a : Args) : ChunkParams :=
+  { min := a.nat "min", max := a.nat "max", d := UInt32.ofNat (a.nat "d") }
+
+/-- `chunk.all min= max= d= data=` : the chunk sequence of a whole input -/
+def cmdChunkAll (a : Args) : String :=
+  match a.bytes "data" with
+  | none => "bad-op"
+  | some data => pairsStr (chunkAll (paramsOf a) data)
+
+/-- `chunk.buffered … frags=` : the buffered chunker over a fragmenting reader -/
+def cmdChunkBuffered (a : Args) : String :=
+  match a.bytes "data" with
+  | none => "bad-op"
+  | some data =>
+    pairsStr (Buffered.all (paramsOf a) (data.length + 1) ⟨⟨data, natList (a.get "frags")⟩, [], 0, false⟩)
+
+def cmdChunkDisc (a : Args) : String := toString (Gen.discriminatorFromAvg (a.u64 "avg")).toNat
+
+def cmdSip (a : Args) : String :=
+  match a.bytes "data" with
+  | none => "bad-op"
+  | some d => toString (sipHashName d).toNat
+
+/-- `bst n=` : heap layout of 0..n-1 -/
+def cmdBst (a : Args) : String :=
+  let n := a.nat "n"
+  match bstAssign (List.range n) 0 (bstLevel n) with
+  | none => "panic"
+  | some as => String.intercalate "," ((placeAll n as).toList.map toString)
+
 def runLine (l : String) : String :=
   match l.splitOn " " with
   | [] => "bad-op"
@@ -69,6 +107,11 @@ def runLine (l : String) : String :=
     match cmd with
     | "idx.decode" => cmdIdxDecode a
     | "idx.encode" => cmdIdxEncode a
+    | "chunk.all" => cmdChunkAll a
+    | "chunk.buffered" => cmdChunkBuffered a
+    | "chunk.disc" => cmdChunkDisc a
+    | "sip" => cmdSip a
+    | "bst" => cmdBst a
     | _ => "bad-op"
 
 end Driver
